@@ -84,13 +84,30 @@ let parse_case (rest : Sexp.t list) (id : string) (family : string) : case =
       | _ -> None) (field "runs" rest) in
   { id; family; text; path; doc; vars; vars_tag; next_tag; usetz; tzoff; unordered; haskv; kv; retab; pure; runs; group }
 
+(* memoisation of pure, expensive library functions of the extracted oracle instance (number parsing
+   and formatting on inductive numbers): same results, computed once per distinct argument *)
+let memo1 (tbl : ('a, 'b) Hashtbl.t) (f : 'a -> 'b) (x : 'a) : 'b =
+  match Hashtbl.find_opt tbl x with
+  | Some y -> y
+  | None -> let y = f x in Hashtbl.add tbl x y; y
+let t_pf = Hashtbl.create 4096 and t_ff = Hashtbl.create 4096 and t_p10 = Hashtbl.create 256
+and t_mod = Hashtbl.create 4096 and t_pi = Hashtbl.create 4096 and t_ofz = Hashtbl.create 4096
+let fast (l : execLib) : execLib =
+  { l with
+    xl_parse_float = memo1 t_pf l.xl_parse_float;
+    xl_format_float = memo1 t_ff l.xl_format_float;
+    xl_pow10 = memo1 t_p10 l.xl_pow10;
+    xl_of_Z = memo1 t_ofz l.xl_of_Z;
+    xl_parse_int = (fun b n s -> memo1 t_pi (fun (b, n, s) -> l.xl_parse_int b n s) (b, n, s));
+    xl_mod = (fun a b -> memo1 t_mod (fun (a, b) -> l.xl_mod a b) (a, b)) }
+
 let missed = ref false
 let lib_of (c : case) : execLib =
   let re pat flags subj =
     match List.assoc_opt (unchars pat, int_of_z flags, unchars subj) c.retab with
     | Some b -> b
     | None -> missed := true; false in
-  mk_lib (ctx_fixed c.tzoff now_sec) re members_in_order
+  fast (mk_lib (ctx_fixed c.tzoff now_sec) re members_in_order)
 
 let opts_of (c : case) (r : run) : opts =
   { o_vars = c.vars; o_vars_tag = c.vars_tag; o_silent = r.silent; o_useTZ = c.usetz;
@@ -102,6 +119,25 @@ let obs_in (r : run) (name : string) : obs option =
   match List.assoc_opt name r.entries with Some (o, _) -> Some o | None -> None
 let polls_in (r : run) (name : string) : int option =
   match List.assoc_opt name r.entries with Some (_, p) -> p | None -> None
+
+(* A listed finding is a deviation of the UNCHANGED code from the property; the model reproduces
+   every one of them (its _refuted theorems).  So a deviation that the model does not reproduce on
+   this very input is a new one, whatever its syntactic shape: the class is then withdrawn. *)
+let model_obs (c : case) (r : run) (entry : string) : obs =
+  let lib = fast (mk_lib (ctx_fixed c.tzoff now_sec)
+      (fun pat flags subj -> match List.assoc_opt (unchars pat, int_of_z flags, unchars subj) c.retab with Some b -> b | None -> false)
+      members_in_order) in
+  let o = opts_of c r in
+  match entry with
+  | "query" -> obs_of_q (api_query lib fuel c.path c.doc o)
+  | "first" -> obs_of_f (api_first lib fuel c.path c.doc o)
+  | "exists" -> obs_of_b (api_exists lib fuel c.path c.doc o)
+  | "match" -> obs_of_b (api_match lib fuel c.path c.doc o)
+  | _ -> obs_of_b (api_eom lib fuel c.path c.doc o)
+let known_by_model (c : case) (r : run) (entry : string) (impl : obs) : bool =
+  c.unordered || obs_eqb c.unordered c.kv impl (model_obs c r entry)
+let narrow (c : case) (r : run) (entry : string) (impl : obs) (cls : string) : string =
+  if cls <> "NONE" && not (known_by_model c r entry impl) then "NONE" else cls
 
 let prop_line tag (c : case) clause cls detail =
   bump ("prop_" ^ tag);
@@ -206,7 +242,9 @@ let thm_leg (c : case) =
   let root = c.path.p_root in
   let h_ne = root <> [] and h_kv = no_kv root and h_ex = exists_ok root and h_no = ne_ops root in
   let h_ut = unary_tail_free root in
+  let h_qf = quirk_free root in
   bump "thm_cases";
+  if h_qf then bump "thm_hyp_quirk_free";
   if not h_kv then bump "thm_hyp_no_kv_fails";
   if not h_ex then bump "thm_hyp_exists_ok_fails";
   if not h_no then bump "thm_hyp_ne_ops_fails";
@@ -238,6 +276,17 @@ let thm_leg (c : case) =
                      bump "thm_failures";
                      Printf.printf "THM %s %s %s silent=%b theorem=%s_is_trace model=%s spec=%s text=%s\n"
                        c.id c.family entry r.silent entry (string_of_obs m) (string_of_obs s) (qs c.text)
+                   end;
+                   (* proofs/QuirkFree.v: on paths without subscripts and "is unknown" the model conforms to the
+                      DOCUMENTED semantics (quirks_ideal) *)
+                   if h_qf then begin
+                     let si = spec_obs lib c o entry quirks_ideal in
+                     bump "thm_ideal_instances";
+                     if not (obs_eqb false c.kv m si) && not !missed then begin
+                       bump "thm_failures";
+                       Printf.printf "THM %s %s %s silent=%b theorem=%s_conforms_ideal model=%s spec=%s text=%s\n"
+                         c.id c.family entry r.silent entry (string_of_obs m) (string_of_obs si) (qs c.text)
+                     end
                    end)
               end) r.entries
         end) c.runs
@@ -283,14 +332,14 @@ let check_c05 (c : case) =
            | ObWeird -> prop_line "C05" c ("error-with-value-" ^ entry) "NONE" "(weird)"
            | ObErr OEInvalid ->
              let cls = if chain_has is_dt c.path.p_root then "C05-errinvalid-datetime-compare" else "NONE" in
-             prop_line "C05" c ("errinvalid-" ^ entry) cls "(err invalid)"
+             prop_line "C05" c ("errinvalid-" ^ entry) (narrow c r entry impl cls) "(err invalid)"
            | ObErr OEOther -> prop_line "C05" c ("unclassified-error-" ^ entry) "NONE" "(err other)"
            | ObErr OENull when entry = "query" || entry = "first" -> prop_line "C05" c ("null-from-" ^ entry) "NONE" "(err null)"
            | ObItems items when entry = "query" ->
              if List.exists (json_exists nonfinite) items then begin
                let cls = if chain_has is_decimal c.path.p_root then "C16-decimal-nan"
                  else if chain_has is_arith c.path.p_root then "C05-float-overflow-inf" else "NONE" in
-               prop_line "C05" c "nonfinite-number" cls (string_of_obs impl)
+               prop_line "C05" c "nonfinite-number" (narrow c r entry impl cls) (string_of_obs impl)
              end;
              (* every returned container is a sub-value of the inputs or a keyvalue triple *)
              List.iter (fun it ->
@@ -329,7 +378,7 @@ let check_c06 (c : case) =
              let want = ObBool (l <> []) in
              (* a silent Query may have swallowed a failure; then Exists may legitimately be NULL *)
              if not r.silent && not (eq x want) then
-               prop_line "C06" c "exists-vs-successful-query" (if unary_quirk c.path then "C06-unary-exists" else "NONE")
+               prop_line "C06" c "exists-vs-successful-query" (narrow c r "exists" x (if unary_quirk c.path then "C06-unary-exists" else "NONE"))
                  (string_of_obs x ^ " vs " ^ string_of_obs q)
            | _ -> ());
           (* strict: Exists never hides an error Query reports *)
@@ -344,7 +393,7 @@ let check_c06 (c : case) =
              missed := false;
              let (items, _) = api_sem_of lib quirks_code c.path c.doc (opts_of c r) in
              if items = [] && not !missed then
-               prop_line "C06" c "exists-true-without-item" (if unary_quirk c.path then "C06-unary-exists" else "NONE") (string_of_obs x)
+               prop_line "C06" c "exists-true-without-item" (narrow c r "exists" x (if unary_quirk c.path then "C06-unary-exists" else "NONE")) (string_of_obs x)
            | _ -> ())
         | _ -> ()
       end) c.runs
@@ -445,12 +494,12 @@ let check_c13 (c : case) =
             let overflow = (match impl, e with
                 | ObItems [JNum (NInt _)], AFloat _ -> true   (* an integer where the exact result does not fit *)
                 | _ -> false) in
-            prop_line "C13" c "exact-or-double" (if overflow then "C13-int64-wrap" else "NONE")
+            prop_line "C13" c "exact-or-double" (narrow c r "query" impl (if overflow then "C13-int64-wrap" else "NONE"))
               (string_of_obs impl ^ " expected " ^ string_of_ares e)
           end;
           (match impl with
            | ObItems items when List.exists (json_exists nonfinite) items ->
-             prop_line "C13" c "nonfinite-result" "C05-float-overflow-inf" (string_of_obs impl)
+             prop_line "C13" c "nonfinite-result" (narrow c r "query" impl "C05-float-overflow-inf") (string_of_obs impl)
            | _ -> ())
         | None -> ())
      | None -> ())
@@ -477,7 +526,7 @@ let check_c16 (c : case) =
              if nonfinite it then prop_line "C16" c "double-nonfinite" "NONE" (string_of_json it)
            | Some (SMeth (MDouble | MNumber)), _ -> prop_line "C16" c "double-returns-non-double" "NONE" (string_of_json it)
            | Some (SDecimal (Some p, sc)), JNum (NFlt f) ->
-             if nonfinite it then prop_line "C16" c "decimal-nonfinite" "C16-decimal-nan" (string_of_json it)
+             if nonfinite it then prop_line "C16" c "decimal-nonfinite" (narrow c r "query" impl "C16-decimal-nan") (string_of_json it)
              else begin
                (* at most p - s digits before the decimal point *)
                let s = (match sc with Some s -> int_of_z s | None -> 0) in
@@ -486,7 +535,7 @@ let check_c16 (c : case) =
                (match f64_cmp (f64_abs f) limit with
                 | Some Lt -> ()
                 | _ -> if digits >= 0 && digits < 300 then
-                    prop_line "C16" c "decimal-exceeds-precision" "C16-decimal-zero-digits" (string_of_json it))
+                    prop_line "C16" c "decimal-exceeds-precision" (narrow c r "query" impl "C16-decimal-zero-digits") (string_of_json it))
              end
            | Some (SMeth MBoolean), JBool _ -> ()
            | Some (SMeth MBoolean), _ -> prop_line "C16" c "boolean-returns-non-boolean" "NONE" (string_of_json it)
@@ -533,15 +582,23 @@ let cmp_case : (string, case) Hashtbl.t = Hashtbl.create 128
 
 let opname = function BEq -> "eq" | BNe -> "ne" | BLt -> "lt" | BGt -> "gt" | BLe -> "le" | BGe -> "ge" | _ -> "?"
 
+let cmp_modes : string list ref = ref []
 let collect_c12 (c : case) =
-  match c.path.p_root, List.assoc_opt ['x'] c.vars, List.assoc_opt ['y'] c.vars, find_run c false (-1) with
-  | [SBin ((BEq | BNe | BLt | BGt | BLe | BGe) as op, [SVar ['x']], [SVar ['y']])], Some x, Some y, Some r ->
+  let shape = (match c.path.p_root with
+      | [SBin ((BEq | BNe | BLt | BGt | BLe | BGe) as op, [SVar ['x']], [SVar ['y']])] -> Some (op, "", "")
+      (* the same operators on datetime items: "$x.datetime() OP $y.datetime()" under WithTZ in a fixed-offset zone *)
+      | [SBin ((BEq | BNe | BLt | BGt | BLe | BGe) as op, [SVar ['x']; SDt (DDateTime, None, None)], [SVar ['y']; SDt (DDateTime, None, None)])]
+        when c.usetz -> Some (op, "dt:", "+tz" ^ string_of_z c.tzoff)
+      | _ -> None) in
+  match shape, List.assoc_opt ['x'] c.vars, List.assoc_opt ['y'] c.vars, find_run c false (-1) with
+  | Some (op, pre, suf), Some x, Some y, Some r ->
     (match obs_in r "query" with
      | Some impl ->
        let out = (match impl with
            | ObItems [JBool false] -> 0 | ObItems [JBool true] -> 1 | ObItems [JNull] -> 2 | _ -> 3) in
-       let mode = if c.path.p_lax then "lax" else "strict" in
-       let sx = string_of_json x and sy = string_of_json y in
+       let mode = (if c.path.p_lax then "lax" else "strict") ^ suf in
+       if not (List.mem mode !cmp_modes) then cmp_modes := mode :: !cmp_modes;
+       let sx = pre ^ string_of_json x and sy = pre ^ string_of_json y in
        Hashtbl.replace cmp_vals sx x; Hashtbl.replace cmp_vals sy y;
        Hashtbl.replace cmp_cells (String.concat "|" [mode; sx; sy; opname op]) out;
        Hashtbl.replace cmp_case (String.concat "|" [mode; sx; sy]) c
@@ -562,13 +619,17 @@ let finish_c12 () =
   let cell mode x y op = Hashtbl.find_opt cmp_cells (String.concat "|" [mode; x; y; op]) in
   let report mode x y clause cls detail =
     match Hashtbl.find_opt cmp_case (String.concat "|" [mode; x; y]) with
-    | Some c -> prop_line "C12" c clause cls detail
+    | Some c ->
+      let cls = (match find_run c false (-1) with
+          | Some r -> (match obs_in r "query" with Some impl -> narrow c r "query" impl cls | None -> cls)
+          | None -> cls) in
+      prop_line "C12" c clause cls detail
     | None -> () in
   let cls_of xs = if List.exists (fun x -> big_number lib (Hashtbl.find cmp_vals x)) xs then "C12-mixed-number-precision" else "NONE" in
   List.iter (fun mode ->
       (* in lax mode an array operand is unwrapped into a sequence: the order axioms are about items *)
       let is_arr x = (match Hashtbl.find cmp_vals x with JArr _ -> true | _ -> false) in
-      let vals = if mode = "lax" then List.filter (fun x -> not (is_arr x)) vals else vals in
+      let vals = if String.length mode >= 3 && String.sub mode 0 3 = "lax" then List.filter (fun x -> not (is_arr x)) vals else vals in
       List.iter (fun x ->
           List.iter (fun y ->
               match cell mode x y "eq", cell mode x y "ne", cell mode x y "lt", cell mode x y "gt", cell mode x y "le", cell mode x y "ge" with
@@ -618,7 +679,7 @@ let finish_c12 () =
                       if ltxy = 1 && eqyz = 1 && ltxz <> 1 then report mode x z "lt-eq-transitive" (cls_of [x; y; z]) ("via " ^ y);
                       if eqxy = 1 && ltyz = 1 && ltxz <> 1 then report mode x z "eq-lt-transitive" (cls_of [x; y; z]) ("via " ^ y)
                     | _ -> ()) scal
-              | _ -> ()) scal) scal) ["lax"; "strict"]
+              | _ -> ()) scal) scal) (List.rev !cmp_modes)
 
 (* ---------- groups: relations between several cases (C09, C10, C11) ---------- *)
 let groups : (string, (string * case) list) Hashtbl.t = Hashtbl.create 256
@@ -656,7 +717,11 @@ let finish_group (g : string) (members : (string * case) list) =
            | Some c ->
              let got = outcome4 c in
              if got <> expected then
-               prop_line "C11" c ("kleene-" ^ role) (if op = 3 || oq = 3 then cls else "NONE")
+               prop_line "C11" c ("kleene-" ^ role)
+                 (let cls = if op = 3 || oq = 3 then cls else "NONE" in
+                  match find_run c false (-1) with
+                  | Some r -> (match obs_in r "query" with Some impl -> narrow c r "query" impl cls | None -> cls)
+                  | None -> cls)
                  (Printf.sprintf "p=%d q=%d expected=%d got=%d" op oq expected got)
            | None -> () in
          check "and" (k_and op oq) "NONE";
@@ -785,6 +850,12 @@ let () =
                     | _ -> false) c.runs in
                 if nontrivial then bump "distinct_nontrivial"
               end;
+              (* relations computed by the harness on the values in memory *)
+              (match field_opt "hprops" rest with
+               | Some l -> List.iter (function
+                   | L [S tag; S clause; S detail] -> prop_line tag c clause "NONE" ("(" ^ detail ^ ")")
+                   | _ -> ()) l
+               | None -> ());
               tie_leg c;
               spec_leg c;
               thm_leg c;
@@ -805,7 +876,7 @@ let () =
   List.iter (fun g -> finish_group g (List.rev (Hashtbl.find groups g))) (List.rev !group_order);
   Printf.printf "STAT distinct_nontrivial n=%d\n" (count "distinct_nontrivial");
   List.iter (fun name -> if count name > 0 then Printf.printf "STAT %s n=%d\n" name (count name))
-    ["thm_cases"; "thm_hyp_ok"; "thm_instances"; "thm_failures"; "thm_premise_not_ret"; "thm_hyp_no_kv_fails"; "thm_hyp_exists_ok_fails";
+    ["thm_cases"; "thm_hyp_ok"; "thm_hyp_quirk_free"; "thm_instances"; "thm_ideal_instances"; "thm_failures"; "thm_premise_not_ret"; "thm_hyp_no_kv_fails"; "thm_hyp_exists_ok_fails";
      "thm_hyp_ne_ops_fails"; "thm_hyp_unary_tail_free_fails"; "c12_pairs"; "c12_triples"; "c13_checked"; "c11_groups"; "c09_groups"; "c10_groups"; "cancel_runs";
      "prop_C05"; "prop_C06"; "prop_C08"; "prop_C09"; "prop_C10"; "prop_C11"; "prop_C12"; "prop_C13"; "prop_C16"; "prop_C20"];
   Printf.printf "SUMMARY cases=%d runs=%d comparisons=%d ties=%d polls=%d impure=%d skipped=%d oracle_miss=%d spec_comparisons=%d spec_mismatches=%d\n"
